@@ -25,6 +25,10 @@ def gen_case(r, nops, K):
     mode = r.below(10)
     if mode < 7:
         c = c08.gen_case(r, nops, K, exits=True, mode=r.range(1, 7))
+        if r.chance(1, 3):      # forfeits in several uptime accumulators at one withdrawal (re-deposit path)
+            at = r.range(1, max(1, min(len(c["ops"]), nops - 8)))
+            c["ops"][at:at] = c08.forfeit_block(r, c["ops"][0])
+            c["ops"] = c["ops"][:nops]
     else:
         # adversarial: narrow ranges around the price, dust, there-and-back swaps
         c = _cl.gen_case(r, 6, K, weights={"time": 4})
